@@ -3,6 +3,7 @@
 
   ops
     power    {B, v0, maxiter}          -> {mu, v} | err value     power_iteration on the dense (real-view) matrix B
+    powerc   {Bre, Bim, vre, vim, maxiter} -> {mu:[re,im], vre, vim} | err value   power_iteration on a complex matrix (complex Rayleigh quotient)
     opnorm   {A, v0, maxiter}          -> c | err value            operator_norm: power iteration on v ↦ Aᵀ(A v), sqrt
     pdhg     {c, ratio, factor|null}   -> [tau, sigma]
     padmm    {cA, cB, factor|null}     -> [mu, nu]
@@ -28,6 +29,30 @@ def opsOf (apply : FV → FV) : VOps FV Float where
   inner := vdot
   norm := fun v => Float.sqrt (vdot v v)
   sdiv := fun v c => v.map (· / c)
+
+/-! complex arithmetic at `Float` for `powerIterationC` -/
+structure Cx where
+  re : Float
+  im : Float
+
+instance : Zero Cx := ⟨⟨0, 0⟩⟩
+
+abbrev CV := Array Cx
+
+def cmul (a b : Cx) : Cx := ⟨a.re * b.re - a.im * b.im, a.re * b.im + a.im * b.re⟩
+def cadd (a b : Cx) : Cx := ⟨a.re + b.re, a.im + b.im⟩
+def cconj (a : Cx) : Cx := ⟨a.re, -a.im⟩
+def csum (v : CV) : Cx := v.foldl cadd ⟨0, 0⟩
+def cmatvec (B : Array CV) (x : CV) : CV := B.map (fun r => csum ((r.zip x).map (fun p => cmul p.1 p.2)))
+
+def opsOfC (B : Array CV) : VOpsC CV Cx Float where
+  apply := cmatvec B
+  inner := fun a b => csum ((a.zip b).map (fun p => cmul (cconj p.1) p.2))
+  norm := fun v => Float.sqrt ((v.map (fun z => z.re * z.re + z.im * z.im)).foldl (· + ·) 0)
+  sdiv := fun v c => v.map (fun z => ⟨z.re / c, z.im / c⟩)
+  cdivr := fun z r => ⟨z.re / r, z.im / r⟩
+
+def zipC (re im : List Float) : CV := ((re.zip im).map (fun p => (⟨p.1, p.2⟩ : Cx))).toArray
 
 def ord? (j : Json) : Option Ord :=
   match field? j "ord" with
@@ -60,6 +85,16 @@ def handler : Handler := fun op j =>
     let Bm := (B.map List.toArray).toArray
     match powerIteration (opsOf (matvec Bm)) maxiter v0.toArray with
     | .ok (mu, v) => some (ok (jObj [("mu", jF mu), ("v", jFs v.toList)]))
+    | .error e => some (err e)
+  | "powerc" => do
+    let Bre ← fFloatss? j "Bre"
+    let Bim ← fFloatss? j "Bim"
+    let vre ← fFloats? j "vre"
+    let vim ← fFloats? j "vim"
+    let maxiter ← fNat? j "maxiter"
+    let Bm := ((Bre.zip Bim).map (fun p => zipC p.1 p.2)).toArray
+    match powerIterationC (opsOfC Bm) maxiter (zipC vre vim) with
+    | .ok (mu, v) => some (ok (jObj [("mu", jFs [mu.re, mu.im]), ("vre", jFs (v.toList.map (·.re))), ("vim", jFs (v.toList.map (·.im)))]))
     | .error e => some (err e)
   | "opnorm" => do
     let A ← fFloatss? j "A"
